@@ -5,6 +5,8 @@ import (
 	"errors"
 	"io"
 	"os"
+
+	"github.com/mikefarah/yq/v4/pkg/verifhook"
 )
 
 type frontMatterHandler interface {
@@ -45,11 +47,17 @@ func (f *frontMatterHandlerImpl) Split() error {
 	if f.originalFilename == "-" {
 		reader = bufio.NewReader(os.Stdin)
 	} else {
+		if err := verifhook.Step("fm.open", f.originalFilename); err != nil {
+			return err
+		}
 		file, err := os.Open(f.originalFilename) // #nosec
 		if err != nil {
 			return err
 		}
 		reader = bufio.NewReader(file)
+		if hooked := verifhook.Reader("fm", f.originalFilename, file); hooked != nil {
+			reader = bufio.NewReader(hooked)
+		}
 	}
 	f.contentReader = reader
 
@@ -80,6 +88,9 @@ func (f *frontMatterHandlerImpl) Split() error {
 			return errReading
 		}
 
+		if errHook := verifhook.Step("fm.write", yamlTempFile.Name()); errHook != nil {
+			return errHook
+		}
 		_, errWriting := yamlTempFile.WriteString(line)
 
 		if errWriting != nil {
